@@ -7,3 +7,7 @@ package consts
 //@ func (OutboundIndex).IsReserved
 //@   vpure
 //@   trusted
+
+//@ func (OutboundIndex).String
+//@   vpure
+//@   trusted
